@@ -6,7 +6,8 @@ From Anydb Require Import Common.Base Common.LE Gen.Consts Gen.Sizes Codec.Vecdb
 Inductive cverr :=
 | ECorruptedRegion | EUnexpectedIndex | EExpectVecToHaveIndex | EDecompressionMismatch
 | EWrongLength | EDifferentVersion | EDifferentFormat | EInvalidFormat | EUnderflow | EOverflow
-| EIo                      (* change file missing *)
+| EIo                      (* change file / directory missing *)
+| EIndexTooHigh | EStampMismatch
 | ERawdb (e : rerr).
 
 Definition lift_r {A} (r : res rerr A) : res cverr A :=
